@@ -291,11 +291,22 @@ func scenarioC19UP4(r *Run) {
 		body := []byte(fmt.Sprintf(`{"sliceName":"s1","sliceQos":{"uplinkMbr":%d,"downlinkMbr":%d,"bitrateUnit":"Kbps","uplinkBurstSize":%d,"downlinkBurstSize":%d}}`, ul, dl, 1+r.Ch.Choose(1<<20, "b1"), 1+r.Ch.Choose(1<<20, "b2")))
 		req := &vsimenv.HTTPReq{Method: []string{"POST", "PUT"}[r.Ch.Choose(2, "method")], Path: "/v1/config/network-slices", Body: body}
 		before := len(sw.WriteLog)
+		slowWrite := when == 1 && r.Ch.Choose(4, "slow-slice-write") == 1
+		if slowWrite {
+			// the switch takes seconds over this Write (it is applied, and answered, late):
+			// the client is answered when the datapath has answered, with what really happened
+			sw.Faults.SlowDen, sw.Faults.SlowBy = 1, time.Duration(2100+r.Ch.Choose(3000, "slow-slice-ms"))*time.Millisecond
+			r.Fault("slice-meter-write-takes-seconds")
+		}
 		if !r.W.HTTP.Submit(r.Inc, req) {
 			r.Violate("C19", "http-not-listening", "the HTTP endpoint is not served")
 			return
 		}
 		r.Sim.RunUntil(func() bool { return req.Done }, r.until(40*time.Second))
+		if slowWrite {
+			sw.Faults.SlowDen = 0
+			r.Sim.RunFor(6 * time.Second) // whatever is still on its way to the switch has arrived
+		}
 		if !req.Done {
 			if r.AgentAlive() {
 				r.Violate("C19", "http-request-hangs:up4", "%s did not complete within 40 s\n%s", req.Method, strings.Join(r.Sim.BlockedTable(), "\n"))
